@@ -11,4 +11,6 @@ func installHook(*H, string) {}
 
 func removeHook() {}
 
+func setHook(func(point string)) {}
+
 func (h *H) processHooks(before snap, a, b *view) {}
